@@ -72,6 +72,8 @@ CLS_ATTR_MODELS: dict = {}  # kind class -> callable(interp, scls, name)
 CTOR_MODELS: dict = {}  # kind class -> callable(interp, cls_value, *args, **kw)
 SUBSCRIPT_MODELS: dict = {}  # kind class -> callable(interp, cls_value, key)
 LOOP_INVARIANTS: dict = {}  # (qualname, ordinal) -> LoopSpec
+CLOSURE_MODELS: dict = {}  # qualname of a nested function -> summary used for its recursive calls
+CLOSURE_ENTRY_HOOKS: dict = {}  # qualname -> hook(it, closure, args, kwargs, node) wrapping the first (outermost) call
 OPAQUE_CLASSES: set = set()  # classes whose instances / methods are bit-level data: calls give Opaque
 OPAQUE_FUNCS: dict = {}  # id(callable) -> tag: calls give Opaque (assumed not to raise; listed as assumption)
 
@@ -338,7 +340,7 @@ class Interp:
                 return BoundMethod(("sstr", name), obj)
             self.outside(f"string method {name}", node)
         if type(obj).__name__ == "SSet":
-            if name in ("add", "copy"):
+            if name in ("add", "copy", "discard", "difference_update", "update", "intersection_update"):
                 return BoundMethod(("sset", name), obj)
             self.outside(f"set method {name}", node)
         if isinstance(obj, SFmt):
@@ -595,6 +597,24 @@ class Interp:
         )
 
     def call_closure(self, c: Closure, args, kwargs, node=None):
+        m = CLOSURE_MODELS.get(c.qualname)
+        active = getattr(self, "_active_closures", None)
+        if active is None:
+            active = self._active_closures = {}
+        if m is not None and active.get(c.qualname, 0) >= 1:
+            # recursive call of a nested function under contract: its own
+            # contract is the induction hypothesis
+            return m(self, c, *args, **kwargs)
+        active[c.qualname] = active.get(c.qualname, 0) + 1
+        try:
+            hook = CLOSURE_ENTRY_HOOKS.get(c.qualname)
+            if hook is not None and active[c.qualname] == 1:
+                return hook(self, c, args, kwargs, node)
+            return self._run_closure(c, args, kwargs, node)
+        finally:
+            active[c.qualname] -= 1
+
+    def _run_closure(self, c: Closure, args, kwargs, node=None):
         return self.run_body(
             c.node, args, kwargs, c.frame, c.frame.globals, c.qualname, c.defaults, c.kwdefaults, node, c.frame.cls
         )
@@ -650,9 +670,11 @@ class Interp:
                 return self.eval(fnode.body, frame)
             for n in ast.walk(fnode):
                 if isinstance(n, ast.Nonlocal):
-                    frame.nonlocals.update(n.names)
+                    if self._owner_def(fnode, n):
+                        frame.nonlocals.update(n.names)
                 elif isinstance(n, ast.Global):
-                    frame.globals_decl.update(n.names)
+                    if self._owner_def(fnode, n):
+                        frame.globals_decl.update(n.names)
                 elif isinstance(n, ast.Yield) and self._owner_def(fnode, n):
                     # generator: run eagerly, the call yields the list of produced
                     # values (assumption: the consumer exhausts it, no interleaving)
